@@ -350,6 +350,9 @@ func Run(c *hx.Ctx) {
 					c.Report("C03/p2p-store/seeded-with-unvalidated-header/"+kind, fmt.Sprintf("height %d hash %s names the proposer but is not signed with the proposer's key", hdr.Height(), short(hdr.Hash())))
 				}
 			}
+		case "p2pstale":
+			// the real HeaderSyncService restarted on a store whose genuine head is `age` hours old (stale.go)
+			w.opStale(c, o)
 		case "p2pbootdat":
 			// the same init path for the first item of the P2P DATA store
 			b := o.Bytes("blob")
